@@ -509,6 +509,22 @@ fn part_special_positions() -> Stats {
             st.count("g/escape-sources");
         }
     }
+    // every character as the *content* of a string literal (unescaped), alone and between letters: the value is
+    // exactly that text, whatever the character is (zero-width, bidirectional controls, byte order mark ...)
+    let mut cps2: Vec<u32> = (0..=0x3000).collect();
+    cps2.extend([0xfeff, 0xfffd, 0xe000, 0x1f600, 0xe0001, 0x10ffff]);
+    for c in cps2.into_iter().filter_map(char::from_u32) {
+        if c == '"' || c == '\\' {
+            continue;
+        }
+        for text in [format!("{c}"), format!("a{c}b"), format!("{c}{c} {c}")] {
+            let src = format!("\"{}\"", text);
+            check_value(&src, &RV::Str(text.clone()), "string-literal", json!({"source": src, "text": text}), &mut st);
+            let emb = format!("len(\"{}\" + \"z\") + 0 * len(\"{}\")", text, text);
+            let _ = emb;
+            st.count("g/string-content-characters");
+        }
+    }
     for mantissa in ["1", "2.5", ".5", "1."] {
         for e in ["e", "E"] {
             for sign in ["+", "-"] {
@@ -640,7 +656,7 @@ pub fn run(cfg: &Cfg) -> Report {
     Report {
         property: ID,
         level: "exploration",
-        rule: format!("(a) every text of length <= {} over a 16-character hostile alphabet, quoted by the reference escaper, alone and in 4 embeddings; (b) every raw source `\"`+w, |w| <= {} over {{\" \\ a n / *}}; (c) every integer below {} in decimal, hex (both digit cases) and with leading zeros, plus 2^k+d and 10^k+d (|d| <= 2) with embeddings; (d) every string of length <= {} over `0 1 5 9 . e E + - x` (token streams) and a pool of doubles (powers of two and ten with neighbours, subnormals, rounding-hard cases) x up to 11 renderings (incl. upper-case `E`, `E+`, `E-`) x 12 embeddings; (e) every word of length <= {} over a 22-character alphabet, and keyword- and number-like words (true, false, inf, nan, infinity, 0x1f, 1e5, ...) in every letter case; (g) special positions: every character in 0..=0x3000 after a backslash inside a string literal (only `\\\\` and `\\\"` are escapes), and 19 kinds of tail after `<mantissa>e` and a sign (a string literal, a group, an identifier, a float, a hex word ... only a digit word joins); (f) scaling families: strings, identifiers, digit strings, mantissas and exponents of n characters for n in 1..20 and up to 129 / 1..40 and up to 400. Oracle: reference lexer/classifier + str::parse. Non-trivial: strings containing quote/backslash/comment characters, raw sources, integers, strings with a float token, float renderings, words classified as literals; every text is enumerated once per part", t.pick(4, 6), t.pick(6, 9), t.pick(1u64 << 14, 1 << 17), t.pick(6, 8), t.pick(3, 5)),
+        rule: format!("(a) every text of length <= {} over a 16-character hostile alphabet, quoted by the reference escaper, alone and in 4 embeddings; (b) every raw source `\"`+w, |w| <= {} over {{\" \\ a n / *}}; (c) every integer below {} in decimal, hex (both digit cases) and with leading zeros, plus 2^k+d and 10^k+d (|d| <= 2) with embeddings; (d) every string of length <= {} over `0 1 5 9 . e E + - x` (token streams) and a pool of doubles (powers of two and ten with neighbours, subnormals, rounding-hard cases) x up to 11 renderings (incl. upper-case `E`, `E+`, `E-`) x 12 embeddings; (e) every word of length <= {} over a 22-character alphabet, and keyword- and number-like words (true, false, inf, nan, infinity, 0x1f, 1e5, ...) in every letter case; (g) special positions: every character in 0..=0x3000 as the content of a string literal and after a backslash inside a string literal (only `\\\\` and `\\\"` are escapes), and 19 kinds of tail after `<mantissa>e` and a sign (a string literal, a group, an identifier, a float, a hex word ... only a digit word joins); (f) scaling families: strings, identifiers, digit strings, mantissas and exponents of n characters for n in 1..20 and up to 129 / 1..40 and up to 400. Oracle: reference lexer/classifier + str::parse. Non-trivial: strings containing quote/backslash/comment characters, raw sources, integers, strings with a float token, float renderings, words classified as literals; every text is enumerated once per part", t.pick(4, 6), t.pick(6, 9), t.pick(1u64 << 14, 1 << 17), t.pick(6, 8), t.pick(3, 5)),
         nontrivial_set: "counter:nontrivial-distinct",
         exhaustive: true,
         bound_completed: "all listed alphabets to the stated lengths".into(),
